@@ -3,16 +3,23 @@ package main
 // Cases added after the ninth (short) round of seeded changes (DESIGN 14.11).
 
 import (
+	"bytes"
+	"compress/flate"
 	"context"
 	"errors"
+	"fmt"
 	"io"
+	"io/ioutil"
 	"net"
+	"strconv"
 	"strings"
 	"sync/atomic"
 	"time"
 
 	"github.com/gobwas/httphead"
 	"github.com/gobwas/ws"
+	"github.com/gobwas/ws/wsflate"
+	"github.com/gobwas/ws/wsutil"
 )
 
 func init() {
@@ -26,6 +33,29 @@ func init() {
 		}
 	}
 	r9Wrap("C19", r9Panics)
+	r9Wrap("C08", r9C08)
+	r9Wrap("C06", r9C06)
+	r9Wrap("C13", r9C06)
+	replayers["WXL"] = func(c *ctx, in []string) { runWXL(c, parseWcfg(in[0]), in[1]) }
+	r9Wrap("C18", r9C18)
+	r9Wrap("C12", r9C18)
+	replayers["FRF"] = func(c *ctx, in []string) {
+		a := func(i int) int { v, _ := strconv.Atoi(in[i]); return v }
+		frf(c, a(0), a(1), a(2))
+	}
+	r9Wrap("C16", r9RDT)
+	r9Wrap("C02", r9RDT)
+	replayers["RDT"] = func(c *ctx, in []string) {
+		side, _ := strconv.Atoi(in[0])
+		k, _ := strconv.Atoi(in[2])
+		runRDT(c, byte(side), parseFrames(in[1]), k, in[3])
+	}
+	// r9-C17: a close body modified by its owner must not change the next one (C03N), also under C17
+	r9Wrap("C17", func(c *ctx) {
+		for code := 1000; code <= 1015; code++ {
+			c03N(c, uint16(code), 0)
+		}
+	})
 	r9Wrap("C20", r9C20D)
 	replayers["C20D"] = func(c *ctx, in []string) { c20D(c, in[0], in[1] == "1", in[2] == "1") }
 	r9Wrap("C01", r9NFC)
@@ -200,6 +230,213 @@ func r9C20D(c *ctx) {
 		for _, tmo := range []bool{false, true} {
 			c20D(c, kind, tmo, false)
 			c20D(c, kind, tmo, true)
+		}
+	}
+}
+
+// r9-C08: a caller that goes on writing AFTER the control writer refused a write (ErrControlOverflow changes nothing,
+// also for what follows)
+func r9C08(c *ctx) {
+	for _, side := range []byte{1, 2} {
+		for _, op := range []byte{9, 8} {
+			for _, ctor := range []string{"n", "b131", "b135", "b300", "b38"} {
+				for _, ws := range []string{"100/1,30/2,100/3", "125/1,1/2,1/3", "100/1,26/2,20/3,5/4", "126/1,5/2", "60/1,70/2,60/3,10/4,1/5", "30/1,5/2,100/3,1/4"} {
+					runWC(c, side, op, ctor, ws)
+				}
+			}
+		}
+	}
+}
+
+// r9-C06b: an extension that decides from the HEADER it is shown (its Length): what it sees for a buffered fragment must be
+// the frame that leaves. WXL <cfg> <ops> -> per frame: <length the extension saw>:<rsv>:<payload length on the wire>
+func runWXL(c *ctx, cfg wcfg, ops string) {
+	dst := newRecWriter()
+	w, pan := newWriter(dst, cfg)
+	if pan {
+		return
+	}
+	var seen []int64
+	w.SetExtensions(wsutil.SendExtensionFunc(func(h ws.Header) (ws.Header, error) {
+		seen = append(seen, h.Length)
+		if h.Length%2 == 1 { // marks frames of odd length with RSV2
+			h.Rsv |= 0x2
+		}
+		return h, nil
+	}))
+	runWops(w, dst, strings.Split(ops, ","))
+	var parts []string
+	r := bytes.NewReader(dst.all())
+	i := 0
+	for r.Len() > 0 {
+		f, err := ws.ReadFrame(r)
+		if err != nil {
+			parts = append(parts, "cut")
+			break
+		}
+		s := int64(-1)
+		if i < len(seen) {
+			s = seen[i]
+		}
+		parts = append(parts, fmt.Sprintf("%d:%d:%d", s, f.Header.Rsv, len(f.Payload)))
+		i++
+	}
+	if len(parts) == 0 {
+		parts = []string{"-"}
+	}
+	c.emit("WXL %s %s -> %s %d", cfg.tok(), ops, strings.Join(parts, ","), len(seen))
+}
+
+func r9C06(c *ctx) {
+	for _, side := range []byte{1, 2} {
+		for _, ctor := range []string{"s8", "s125", "d0"} {
+			cfg := wcfg{ctor, side | 4, 2, "-"}
+			runWXL(c, cfg, "w3/1,fl,w4/2,fl")
+			runWXL(c, cfg, "w5/1,ff,w6/2,ff,w1/3,fl")
+			runWXL(c, cfg, "w300/1,w7/2,fl,t9/3,w2/4,fl")
+			runWXL(c, cfg, "r101/1/-,fl,w0/2,fl")
+		}
+	}
+}
+
+// r9-C18: the decompression reader re-used after a message that was taken with io.ReadFull of its KNOWN length (not read
+// to EOF: the decompressor stops inside the appended tail), sources with and without ReadByte. FRF <n1> <n2> <kinds> ->
+// <reused result> <fresh result> <fresh is right 0|1>
+func frf(c *ctx, n1, n2, kinds int) {
+	ctor := func(w io.Writer) wsflate.Compressor { f, _ := flate.NewWriter(w, 6); return f }
+	dctor := func(r io.Reader) wsflate.Decompressor { return flate.NewReader(r) }
+	comp := func(m []byte) []byte {
+		var buf bytes.Buffer
+		w := wsflate.NewWriter(&buf, ctor)
+		w.Write(m)
+		w.Flush()
+		return buf.Bytes()
+	}
+	m1, m2 := patBytes(n1, 3), patBytes(n2, 5)
+	c1, c2 := comp(m1), comp(m2)
+	mk := func(byteReader bool, data []byte) io.Reader {
+		if byteReader {
+			return bytes.NewReader(data)
+		}
+		return plainReader{bytes.NewReader(data)}
+	}
+	one := func(f func() string) (out string) {
+		out = "panic"
+		res := fzRun(func() error { out = f(); return nil })
+		if res.class == "panic" || res.class == "hang" {
+			out = res.class
+		}
+		return out
+	}
+	ra := one(func() string {
+		r := wsflate.NewReader(mk(kinds&1 != 0, c1), dctor)
+		got := make([]byte, len(m1))
+		if _, err := io.ReadFull(r, got); err != nil || !bytes.Equal(got, m1) {
+			return "shortfirst"
+		}
+		r.Reset(mk(kinds&2 != 0, c2))
+		out, err := ioutil.ReadAll(r)
+		return fmt.Sprintf("%s.%s.%s", hx(out), readErrClass(err), readErrClass(r.Err()))
+	})
+	rb := one(func() string {
+		f := wsflate.NewReader(mk(kinds&2 != 0, c2), dctor)
+		out, err := ioutil.ReadAll(f)
+		return fmt.Sprintf("%s.%s.%s", hx(out), readErrClass(err), readErrClass(f.Err()))
+	})
+	want := fmt.Sprintf("%s.nil.nil", hx(m2))
+	c.emit("FRF %d %d %d -> %s %s %d", n1, n2, kinds, ra, rb, b2i(rb == want))
+}
+
+func r9C18(c *ctx) {
+	for _, n1 := range []int{1, 10, 300, 5000} {
+		for kinds := 0; kinds < 4; kinds++ {
+			frf(c, n1, 40+n1%7, kinds)
+		}
+	}
+}
+
+// r9-C16b: a source that reports an error ONCE, together with payload bytes, and then goes on delivering (a read deadline
+// that expired once): the bytes of a frame were interrupted by a transport error, so the read API that was in flight
+// reports it - a message must not come back complete with a nil error as if nothing had happened.
+//
+//	RDT <side> <frames> <k> <api> -> <error seen 0|1> <messages delivered>
+type onceErrReader struct {
+	data  []byte
+	at    int
+	fired bool
+	pos   int
+}
+
+func (r *onceErrReader) Read(p []byte) (int, error) {
+	if r.pos >= len(r.data) {
+		return 0, io.EOF
+	}
+	end := len(r.data)
+	if !r.fired && r.pos < r.at && r.at < end {
+		end = r.at
+	}
+	n := copy(p, r.data[r.pos:end])
+	r.pos += n
+	if !r.fired && r.pos == r.at && n > 0 {
+		r.fired = true
+		return n, errTimeout
+	}
+	return n, nil
+}
+
+func runRDT(c *ctx, side byte, fs []sframe, k int, api string) {
+	w := wireOf(fs)
+	src := &onceErrReader{data: w, at: k}
+	sawErr, msgs := 0, 0
+	res := fzRun(func() error {
+		switch api {
+		case "readmessage":
+			for i := 0; i < len(fs)+1; i++ {
+				ms, err := wsutil.ReadMessage(src, ws.State(side), nil)
+				if err != nil {
+					if err != io.EOF {
+						sawErr = 1
+					}
+					return nil
+				}
+				msgs += len(ms)
+			}
+		default:
+			var evs []event
+			var ms wsflate.MessageState
+			rd := newReader(src, rcfg{state: side, chk: true, cb: 1}, &evs, &ms)
+			for i := 0; i < len(fs)+1; i++ {
+				if _, err := rd.NextFrame(); err != nil {
+					if err != io.EOF {
+						sawErr = 1
+					}
+					return nil
+				}
+				if _, err := ioutil.ReadAll(rd); err != nil {
+					sawErr = 1
+					return nil
+				}
+				msgs++
+			}
+		}
+		return nil
+	})
+	cls := "ok"
+	if res.class == "panic" || res.class == "hang" {
+		cls = res.class
+	}
+	c.emit("RDT %d %s %d %s -> %d %d %s", side, framesTok(fs), k, api, sawErr, msgs, cls)
+}
+
+func r9RDT(c *ctx) {
+	for _, side := range []byte{1, 2} {
+		f1, f2 := c.mkFrame(side, true, 2, 40), c.mkFrame(side, true, 1, 0)
+		f2.payload = []byte("second message")
+		fs := []sframe{f1, f2}
+		w := wireOf(fs)
+		for k := 1; k < len(w); k += 1 + k/6 {
+			runRDT(c, side, fs, k, "readmessage")
+			runRDT(c, side, fs, k, "reader")
 		}
 	}
 }
